@@ -4,7 +4,8 @@ import gc
 import pickle
 import sys
 
-from .. import families, gen, harness, hist, inject, ledger, minidb, walker
+from .. import dbops, families, gen, harness, hist, inject, ledger, minidb, \
+    walker
 from ..harness import brief
 from ..inject import CmpBoom, FKey
 from ..runner import rng_for
@@ -21,7 +22,11 @@ RULE = ('evaluations = operations after each of which the reference-count '
         'value, failing comparison at a random index), set algebra and '
         'weighted operations, conflict merges, pickling, commit / cache '
         'eviction / reload through MiniDB, clear, and final destruction '
-        '(every tracked object back at its baseline and alive); the same '
+        '(every tracked object back at its baseline and alive); operations '
+        'between two STORED containers with a cache sweep at the n-th load '
+        'inside the call and optionally a later load refused (absolute '
+        'ledger: every key / value object in a slot of a live node has '
+        'exactly as many references as slots hold it); the same '
         'workload runs on the ASan+UBSan build with PYTHONMALLOC=malloc; '
         'distinct_nontrivial = distinct (family, kind, operation, outcome, '
         'tree height) tuples')
@@ -37,6 +42,9 @@ def must_see(tier):
     m = {'ledger-checks': 20000, 'teardown-checks': 100,
          'valgrind:evaluations': 500, 'cycle-collections': 300,
          'resolve-with-successor': 10,
+         'c:dbops:ledger-checks': 300, 'c:dbops:sweep-inside-load': 100,
+         'c:dbops:load-refused-after-sweep': 30,
+         'c:dbops:reload-after-in-load-sweep': 30,
          'height>=3': 10, 'evict-reload': 20}
     for op in ('setitem', 'delitem', 'pop', 'popitem', 'setdefault', 'update',
                'clear', 'get', 'keys-range', 'iterator-partial',
@@ -58,6 +66,19 @@ def plan(tier, seed):
         specs.append(dict(label=fam + '-asan', family=fam,
                           histories=3 if q else 25, seed=seed + 9, tier=tier,
                           variant='asan', timeout=1500 if q else 7200))
+    # two stored operands, sweep at a load inside the call, a later load
+    # refused (vmon/dbops.py): absolute ledger on the monitor build, the
+    # same cases on the ASan build (a reference dropped twice there is a
+    # use-after-free: object memory comes from malloc)
+    for fam in FAMS:
+        specs.append(dict(label=fam + '-dbops', family=fam, dbops=True,
+                          histories=150 if q else 4000, seed=seed, tier=tier,
+                          variant='mon', timeout=900 if q else 7200))
+    for fam in (['OO', 'IO', 'OI'] if q else FAMS + ['II', 'LF', 'fs']):
+        specs.append(dict(label=fam + '-dbops-asan', family=fam, dbops=True,
+                          histories=120 if q else 1500, seed=seed + 5,
+                          tier=tier, variant='asan',
+                          timeout=1500 if q else 7200))
     # valgrind memcheck on the monitor build: reads of uninitialised memory
     # and intra-object overruns that ASan's red zones cannot see (~50x: a
     # few histories only)
@@ -186,6 +207,13 @@ def run_cycles(fam, kind, rng, rec):
 
 def run_shard(spec, rec):
     fam = families.get(spec['family'])
+    if spec.get('dbops'):
+        for h in range(spec['histories']):
+            rng = rng_for(spec['seed'], ID, spec['label'], h)
+            n0 = rec.evaluations
+            dbops.run_case(fam, 'c', rng, rec, 'dbops', ledger_mode=True,
+                           behaviour=False)
+        return
     for h in range(spec['histories']):
         for kind in families.KINDS:
             rng = rng_for(spec['seed'], ID, spec['label'], kind, h)
